@@ -114,22 +114,15 @@ pub fn __idset_refs<'a>(s: &'a HashSet<SetId>) -> (r: Vec<&'a SetId>)
 // ---- HashMap<InpId, RoaringBitmap>, HashMap<u32, u32> --------------------------------------------
 // (the view of HashMap<K, V> is Map<K, V>, prelude/hashmap.rs: the value of a key is a bitmap, its
 // elements are `m@[k]@`)
-/// `m.entry(k).or_default()` (creates the empty bitmap when k is new)
+/// `m.entry(k).or_default().insert(x)`: the bitmap of k (created empty when k is new) gains x;
+/// no other entry changes
 #[verifier::external_body]
-pub fn __entry_or_default_set(m: &mut HashMap<InpId, RoaringBitmap>, k: InpId)
+pub fn __entry_or_default_insert_set(m: &mut HashMap<InpId, RoaringBitmap>, k: InpId, x: u32) -> (r: bool)
     ensures
-        old(m)@.contains_key(k) ==> final(m)@ == old(m)@,
-        !old(m)@.contains_key(k) ==> final(m)@.dom() == old(m)@.dom().insert(k) && final(m)@[k]@ == ISet::<u32>::empty()
-            && (forall|j: InpId| old(m)@.contains_key(j) ==> final(m)@[j] == old(m)@[j]),
-{ unimplemented!() }
-
-/// `.insert(x)` on the bitmap of k obtained by `m.entry(k).or_default()`
-#[verifier::external_body]
-pub fn __entry_insert_set(m: &mut HashMap<InpId, RoaringBitmap>, k: InpId, x: u32) -> (r: bool)
-    requires old(m)@.contains_key(k)
-    ensures
-        final(m)@.dom() == old(m)@.dom() && final(m)@[k]@ == old(m)@[k]@.insert(x),
-        forall|j: InpId| j != k && old(m)@.contains_key(j) ==> final(m)@[j] == old(m)@[j],
+        final(m)@.dom() == old(m)@.dom().insert(k),
+        old(m)@.contains_key(k) ==> final(m)@[k]@ == old(m)@[k]@.insert(x),
+        !old(m)@.contains_key(k) ==> final(m)@[k]@ == ISet::<u32>::empty().insert(x),
+        forall|j: InpId| j != k && old(m)@.contains_key(j) ==> #[trigger] final(m)@[j] == old(m)@[j],
 { unimplemented!() }
 
 impl HashMap<InpId, RoaringBitmap> {
